@@ -1,16 +1,27 @@
 """C07 - the frames the DVB demultiplexer delivers depend only on the byte stream, and it recovers after damage.
 spec/DvbStream.tla  grammar / transmitter of a DVB VBI stream (EN 300 472, EN 301 775, ISO 13818-1)
 spec/DvbDemux.tla   frames of a stream read sequentially (reference) + the incremental receiver fed with arbitrary
-                    chunks, shaped like wrap_around()/demux_pes_packet()/demux_ts_packet()/vbi_dvb_demux_cor()
-MC  (MC_DvbDemux):  PartitionInvariance over ALL partitions of scaled streams (intact, junk, truncated, foreign stream
-                    id / PID, bad continuity, lost / repeated packets ...), callback and coroutine interface, the three
-                    receiver policies; Recovery per policy; NoLookaheadOverrun.
+                    chunks, shaped like wrap_around()/demux_pes_packet()/demux_ts_packet()/vbi_dvb_demux_cor(); the
+                    continuity counter as receiver state (ContClass: first / next / dup / lost, modulo 16), the capacity
+                    of a frame (MaxLines slots, tested where a slot is taken)
+MC  (MC_DvbDemux):  _q/_t   PartitionInvariance over ALL partitions of scaled streams (intact, junk, truncated, foreign stream
+                            id / PID, bad continuity, lost packets, packets sent twice across the counter wrap ...), callback
+                            and coroutine interface, the three receiver policies; Recovery per policy; NoLookaheadOverrun
+                    _cap_q/_cap_t  the same with MaxLines = 3: frames of exactly / more than MaxLines data units, in one and in
+                            two packets, known and undefined line numbers
+                    _cont   DupTransparent / LossBounded: every transport packet of a 21 packet stream sent twice / lost /
+                            with foreign, null and adaptation-field-only packets around it, for all 16 first counter values
 TV  (Trace_DvbDemux, real constants): streams produced by the REAL multiplexer (and damaged variants) are fed to the REAL
                     demultiplexer in every single-cut partition, double cuts of a prefix, byte by byte, random partitions,
                     with resets, and through vbi_dvb_demux_cor(); after every call the driver logs chunk length, delivered
                     frames and the wrap-around scalars; TLC replays the same chunking in the specification and must
                     reproduce every line.  'end' lines state PartitionInvariance (all runs of a stream deliver the same
-                    frames) and Recovery on what the real code delivered.  ASan/UBSan/LSan + watchdog for the safety clause."""
+                    frames), transparency (a variant stream delivers what its base stream delivers) and Recovery on what
+                    the real code delivered.  ASan/UBSan/LSan + watchdog for the safety clause.
+                    Families: intact / damage at every offset / junk (round 1); continuity (counters that wrap: every value
+                    0..15 on a packet sent twice and on a lost packet, single header fields), capacity (frames of 63 .. 78
+                    data units), fields (PES header fields, data unit lengths, stuffing, truncated end, junk with forged
+                    sync bytes / start codes at every alignment) (round 2)."""
 import json, os, random, re, hashlib
 from vlib import tlc, build, core, dvb
 
@@ -24,16 +35,23 @@ MANIFEST = dict(
               "including the partition-invariance and recovery clauses evaluated on the recorded deliveries; ASan/UBSan/LSan",
     text="TLC explores for scaled packet layouts every partition (2^(n-1)) of intact and damaged PES and TS streams into feed calls and "
          "coroutine calls and checks that the frames delivered after every call equal those of the sequential reference, that no byte "
-         "outside the supplied buffers is examined, and which receiver policies deliver all but the first frame after a damage. The real "
-         "demultiplexer is fed real streams cut at every byte position, at pairs of positions, byte by byte, randomly, across resets and "
-         "through the coroutine interface with max_lines 1/5/64; every call's deliveries and internal resume state must be reproduced by "
-         "the specification with the real constants, every partition of a stream must deliver the same frames, and after every damage "
-         "(overwritten, lost, duplicated bytes at every position of a PES / TS packet, swapped TS packets) the frames of the intact tail "
-         "must be delivered as sent.",
+         "outside the supplied buffers is examined, and which receiver policies deliver all but the first frame after a damage; that in a "
+         "transport stream any packet sent twice (for all 16 counter values, across the wrap 15 -> 0), and packets of other PIDs, null "
+         "packets and adaptation-field-only packets anywhere, change nothing, and that a lost packet costs at most the damaged and the next "
+         "frame; and (capacity scaled to 3 lines) that a frame of exactly the capacity is delivered while a frame of more data units is "
+         "refused without harm to the frames behind it. The real demultiplexer is fed real streams cut at every byte position, at pairs of "
+         "positions, byte by byte, randomly, across resets and through the coroutine interface with max_lines 1..64; every call's deliveries "
+         "and internal resume state must be reproduced by the specification with the real constants, every partition of a stream must deliver "
+         "the same frames, transparent variants of a stream (packets sent twice at every counter value, foreign packets, other stuffing, legal "
+         "other data_identifier) must deliver what the stream delivers, and after every damage (overwritten, lost, duplicated bytes at every "
+         "position of a PES / TS packet, swapped / lost TS packets, single TS and PES header fields, data unit lengths and ids, oversized "
+         "frames of 65 .. 78 data units in one or three PES packets, junk with forged sync bytes and start codes at every alignment, truncated "
+         "stream end) the frames of the intact tail must be delivered as sent.",
     note="Bounded: exhaustive partitions only for the scaled layout (33-byte PES packets, 15-byte TS packets, streams of 70-115 bytes); at real "
          "size partitions are every single cut, sampled/all double cuts of a prefix, byte-by-byte and seeded random ones. Raw (monochrome sample) "
          "data units are skipped by the receiver as built (no raw buffer) and are only passed through. Recovery is not asserted where the damage "
-         "enlarges PES_packet_length or removes >= 184 bytes (a receiver has to trust that field). The policy for the frame in progress at the "
+         "enlarges PES_packet_length (in a PES stream; in a TS the next payload_unit_start ends the packet) or removes >= 184 bytes (a receiver has to "
+         "trust that field), nor behind junk that forges a start code / sync byte. A packet sent three times is not asserted to be transparent. The policy for the frame in progress at the "
          "damage (kept / dropped) is left open; the TS receiver is reachable only through the internal _vbi_dvb_ts_demux_new().",
 )
 
@@ -55,10 +73,12 @@ class Run:
 
 
 class Stream:
-    __slots__ = ("bytes", "ts", "pid", "sent", "label")
+    """base: index of the stream this one is a transparent variant of (a transport packet sent twice, foreign packets
+    inserted, other stuffing ...): its runs must deliver what the first run of the base stream delivered"""
+    __slots__ = ("bytes", "ts", "pid", "sent", "label", "base")
 
-    def __init__(self, b, ts, pid, sent, label):
-        self.bytes, self.ts, self.pid, self.sent, self.label = b, ts, pid, sent, label
+    def __init__(self, b, ts, pid, sent, label, base=None):
+        self.bytes, self.ts, self.pid, self.sent, self.label, self.base = b, ts, pid, sent, label, base
 
 
 def one_piece(n):
@@ -101,6 +121,395 @@ def plans_damaged(rnd, n, quick):
     return P
 
 
+# ---------------------------------------------------------------- round 2: continuity counter, frame capacity, header fields
+def flat(ps):
+    return [b for p in ps for b in p]
+
+
+def ttx(rnd, line, f2=False):
+    d = dict(line=line, id=dvb.TTX, data=dvb.rnd_payload(rnd, dvb.TTX))
+    if f2:
+        d["f2"] = True
+    return d
+
+
+def simple_frames(rnd, counts):
+    """frames of counts[i] Teletext lines that begin on line 7: each is recognisable behind any other"""
+    cand = list(range(8, 23)) + list(range(320, 336))
+    base = rnd.randrange(1 << 18)
+    return [([ttx(rnd, ln) for ln in [7] + sorted(rnd.sample(cand, n - 1))], ((base + i) % 8, (base * 3600 + 3600 * i) % (1 << 30)))
+            for i, n in enumerate(counts)]
+
+
+def sync_clean_try(make, tries=200):
+    for _ in range(tries):
+        r = make()
+        if r is not None:
+            return r
+    raise tlc.ToolFailure("no transport stream without forged sync bytes found")
+
+
+def plans_variant(rnd, n, quick, p_cor=0.25, maxls=(1, 5, 64)):
+    P = [one_piece(n), ("cb", 64, dvb.rnd_partition(rnd, n, rnd.choice(["mixed", "small", "packet"])), 0)]
+    if not quick:
+        P.append(("cb", 64, dvb.rnd_partition(rnd, n, "small"), 0))
+    if not quick or rnd.random() < p_cor:
+        P.append(("cor", rnd.choice(maxls) if quick else rnd.randint(1, 64), dvb.rnd_partition(rnd, n, "mixed"), 0))
+    return P
+
+
+PID2, PID_OTHER = 0x0456, 0x0457
+TS_FIELDS = ("transport_error_indicator", "scrambling 01", "scrambling 11", "adaptation_field_control 00", "adaptation_field_control 11",
+             "adaptation_field_control 10", "payload_unit_start flipped", "PID of another stream", "counter + 1", "counter + 7",
+             "sync byte 0x46")
+
+
+def ts_field(pkt, kind):
+    q = list(pkt)
+    if kind == "transport_error_indicator":
+        q[1] |= 0x80
+    elif kind == "scrambling 01":
+        q[3] |= 0x40
+    elif kind == "scrambling 11":
+        q[3] |= 0xC0
+    elif kind == "adaptation_field_control 00":
+        q[3] &= ~0x30
+    elif kind == "adaptation_field_control 11":
+        q[3] |= 0x30
+    elif kind == "adaptation_field_control 10":
+        q[3] = (q[3] & ~0x30) | 0x20
+    elif kind == "payload_unit_start flipped":
+        q[1] ^= 0x40
+    elif kind == "PID of another stream":
+        q[2] ^= 1
+    elif kind == "counter + 1":
+        q[3] = (q[3] & 0xF0) | ((q[3] + 1) & 15)
+    elif kind == "counter + 7":
+        q[3] = (q[3] & 0xF0) | ((q[3] + 7) & 15)
+    elif kind == "sync byte 0x46":
+        q[0] = 0x46
+    else:
+        raise ValueError(kind)
+    return q
+
+
+def family_continuity(ctx, drv, quick, rnd, add_stream, streams, runs):
+    """transport streams whose continuity counters really wrap: every counter value 0 .. 15 on a packet sent twice and on
+    a lost packet, at the start / in the middle / at the end of a PES packet and on single-packet PES packets"""
+    cfgp = dict(ts=False, pid=0, did=0x10, min=184, max=1472)
+    cfg = dict(ts=True, pid=PID2)
+    counts = [2, 5, 3, 9, 1, 6, 2, 10, 3, 5, 1, 2]           # 1 2 1 3 1 2 1 3 1 2 1 1 transport packets
+
+    def make():
+        frames = simple_frames(rnd, counts)
+        pes = dvb.pes_of_mux(dvb.real_stream(drv, cfgp, frames), False)
+        pk0, owner = dvb.ts_packetize(pes, PID2, 0)
+        return (frames, pes, owner) if dvb.sync_clean(flat(pk0)) else None
+    frames, pes, owner = sync_clean_try(make)
+    sent = [dvb.sent_frame(fr, pts) for fr, pts in frames]
+    N = len(owner)
+    pos = []
+    for k in range(N):
+        n_in = owner.count(owner[k])
+        first, last = (k == 0 or owner[k - 1] != owner[k]), (k == N - 1 or owner[k + 1] != owner[k])
+        pos.append("only" if n_in == 1 else "first" if first else "last" if last else "middle")
+    # first counter values: the counter 15 (wrap 15 -> 0 behind it) on a packet of every position type, plus a seeded one
+    starts = [(15 - rnd.choice([k for k in range(2, N - 3) if pos[k] == t])) % 16 for t in ("only", "first", "middle", "last")]
+    starts.append(rnd.randrange(16))
+    starts = sorted(set(starts)) if quick else list(range(16))
+    covered = set()
+    must = sent[1:-1]                  # the first PES packet is one transport packet: over before the receiver is synchronised
+    for ci, cc0 in enumerate(starts):
+        pk, _ = dvb.ts_packetize(pes, PID2, cc0)
+        cc = lambda k: (cc0 + k) % 16
+        b0 = flat(pk)
+        base = add_stream(b0, cfg, must, "continuity: intact stream of %d transport packets, first counter %d" % (N, cc0))
+        for plan in [one_piece(len(b0)), ("cb", 64, dvb.rnd_partition(rnd, len(b0), "mixed"), 0), ("cb", 64, dvb.rnd_partition(rnd, len(b0), "small"), 0),
+                     ("cor", 64, dvb.rnd_partition(rnd, len(b0), "packet"), 0)]:
+            runs.append(Run(base, plan, rec=True))
+
+        def variant(ps, label):
+            sid = add_stream(flat(ps), cfg, must, label + " (first counter %d)" % cc0, base=base)
+            for plan in plans_variant(rnd, len(streams[sid].bytes), quick):
+                runs.append(Run(sid, plan, rec=True))
+            return sid
+        for k in range(N):
+            what = "transport packet %d (counter %d, %s packet of its PES packet)" % (k, cc(k), pos[k])
+            sid = variant(pk[:k + 1] + [pk[k]] + pk[k + 1:], what + " sent twice")
+            covered.add(("twice", cc(k)))
+            covered.add(("twice", cc(k), pos[k]))
+            if ci == 0 and cc(k) == 15:
+                ctx.sample(dict(case="transparent variant: " + streams[sid].label, bytes=len(streams[sid].bytes), must_deliver="what the intact stream delivers"))
+            if not quick or k % 4 == cc0 % 4:
+                variant(pk[:k + 1] + [dvb.ts_other(rnd, PID_OTHER, rnd.randrange(16)), pk[k]] + pk[k + 1:], what + " sent twice, a packet of another PID between")
+            j = owner[k]
+            if not quick or k % 4 == cc0 % 4:
+                # not allowed to a transmitter (2.4.3.3: twice at most): a receiver may ignore the third packet or take it for a discontinuity
+                sid = add_stream(flat(pk[:k + 1] + [pk[k], pk[k]] + pk[k + 1:]), cfg, sent[j + 2:-1], what + " sent three times (first counter %d)" % cc0)
+                for plan in plans_variant(rnd, len(streams[sid].bytes), quick):
+                    runs.append(Run(sid, plan, rec=True))
+            sid = add_stream(flat(pk[:k] + pk[k + 1:]), cfg, sent[j + 2:-1], what + " lost (first counter %d)" % cc0)
+            for plan in plans_variant(rnd, len(streams[sid].bytes), quick):
+                runs.append(Run(sid, plan, rec=True))
+            covered.add(("lost", cc(k)))
+        variant([q for p_ in pk for q in (p_, p_)], "every transport packet sent twice")
+        ps = []
+        for k, p_ in enumerate(pk):
+            # (not in front of the first packet: the receiver would be synchronised early enough to see the first PES packet, which the
+            # intact stream - a one-packet PES packet at its very start - does not show: one frame MORE, correctly)
+            while k > 0 and rnd.random() < 0.45:
+                ps.append(rnd.choice([dvb.ts_other(rnd, PID_OTHER, rnd.randrange(16)), dvb.ts_null(), dvb.ts_other(rnd, 0x1FFE, rnd.randrange(16)),
+                                      dvb.ts_af_only(PID2, cc(k - 1))]))
+            ps.append(p_)
+        variant(ps, "packets of other PIDs, null packets and adaptation-field-only packets of the own PID between the packets")
+        # single header fields of one packet
+        for k in range(N):
+            if quick and (ci != len(starts) - 1 or k % 3 != ctx.seed % 3):
+                continue
+            for kind in TS_FIELDS:
+                j = owner[k]
+                sid = add_stream(flat(pk[:k] + [ts_field(pk[k], kind)] + pk[k + 1:]), cfg, sent[j + 2:-1],
+                                 "transport packet %d (%s of its PES packet): %s (first counter %d)" % (k, pos[k], kind, cc0))
+                for plan in plans_variant(rnd, len(streams[sid].bytes), quick, p_cor=0.1):
+                    runs.append(Run(sid, plan, rec=True))
+    # by construction: the counters wrap where it matters
+    missing = [(w, c) for w in ("twice", "lost") for c in range(16) if (w, c) not in covered]
+    missing += [("twice", 15, t) for t in ("only", "first", "middle", "last") if ("twice", 15, t) not in covered]
+    if missing:
+        raise tlc.ToolFailure("continuity family does not cover %s" % missing)
+    ctx.cov["continuity"] = dict(first_counters=starts, packets=N, position_types=sorted(set(pos)))
+
+
+CC525F1, CC525F2 = dvb.CC525F1, dvb.CC525F2
+
+
+def big_lines(rnd, n, kind):
+    """n lines of ONE frame.  line0: line 7, then Teletext with undefined line numbers; known: ascending known line numbers
+    (525-line caption units on 1 .. 31 and 264 .. 294, Teletext on 320 .. 335); mixed: every known Teletext line followed by
+    one with undefined line number of the same field"""
+    if kind == "line0":
+        return [ttx(rnd, 7)] + [ttx(rnd, 0) for _ in range(n - 1)]
+    if kind == "known":
+        ls = [dict(line=l, id=CC525F1, data=dvb.rnd_payload(rnd, dvb.CC)) for l in range(1, 32)]
+        ls += [dict(line=l, id=CC525F2, data=dvb.rnd_payload(rnd, dvb.CC)) for l in range(264, 295)]
+        ls += [ttx(rnd, l) for l in range(320, 336)]
+        if n > len(ls):
+            raise ValueError(n)
+        return ls[:n]
+    ls = []
+    for l in range(7, 23):
+        ls += [ttx(rnd, l), ttx(rnd, 0)]
+    for l in range(320, 336):
+        ls += [ttx(rnd, l), ttx(rnd, 0, True)]
+    while len(ls) < n:
+        ls.append(ttx(rnd, 0, True))
+    return ls[:n]
+
+
+CAP = 64
+
+
+def family_capacity(ctx, drv, quick, rnd, add_stream, streams, runs):
+    """frames of many data units around the capacity of a frame (64 lines): 63, 64 (ordinary frames: everything is
+    delivered), 65, 71, 78 ... (oversized: damage), in one big PES packet and spread over three packets of the same frame"""
+    sizes = (63, 64, 65, 71, 78) if quick else (8, 32, 60, 62, 63, 64, 65, 66, 70, 71, 72, 77, 78)     # (>= 7 known lines: the next frame, beginning on line 7, stays recognisable)
+    counts = [2, 3, None, 3, 2, 4, 1]
+    D = 2
+    for ts in (False, True):
+        cfg = dict(ts=ts, pid=PID2 if ts else 0)
+        for n in sizes:
+            combos = [(k_, l_) for k_ in ("line0", "known", "mixed") for l_ in ("one", "spread")]
+            if quick:          # two fixed combinations and a seeded third one
+                combos = [("line0", "one"), ("mixed", "spread"), rnd.choice([("known", "one"), ("known", "spread"), ("line0", "spread"), ("mixed", "one")])]
+            for kind, layout in combos:
+                if True:
+                    def make():
+                        small = simple_frames(rnd, [c or 1 for c in counts])
+                        frames = [(big_lines(rnd, n, kind), pts) if counts[i] is None else (fr, pts) for i, (fr, pts) in enumerate(small)]
+                        pes = []
+                        for i, (fr, pts) in enumerate(frames):
+                            us = [dvb.unit_of(l) for l in fr]
+                            if i == D and layout == "spread" and len(us) >= 3:
+                                c1, c2 = sorted(rnd.sample(range(1, len(us)), 2))
+                                pes += [dvb.enc_pes(part, pts, 0x99) for part in (us[:c1], us[c1:c2], us[c2:])]
+                            else:
+                                pes.append(dvb.enc_pes(us, pts, 0x99, stuff_lens=[rnd.choice([0, 1, 3, 44, 100, 255]) for _ in range(3)]))
+                        if not ts:
+                            return frames, flat(pes)
+                        b = flat(dvb.ts_packetize(pes, PID2, rnd.randrange(16))[0])
+                        return (frames, b) if dvb.sync_clean(b) else None
+                    frames, b = sync_clean_try(make)
+                    sent = [dvb.sent_frame(fr, pts) for fr, pts in frames]
+                    fits = n <= CAP
+                    must = sent[(1 if ts else 0):-1] if fits else sent[D + 2:-1]
+                    sid = add_stream(b, cfg, must, "capacity: a frame of %d data units (%s line numbers, %s) in a %s stream" % (
+                        n, {"line0": "undefined", "known": "known", "mixed": "known and undefined"}[kind],
+                        "one PES packet" if layout == "one" else "three PES packets", "TS" if ts else "PES"))
+                    L = len(b)
+                    P = [one_piece(L), ("cb", 64, dvb.rnd_partition(rnd, L, "mixed"), 0), ("cb", 64, dvb.rnd_partition(rnd, L, "packet"), 0)]
+                    if quick:
+                        for maxl in rnd.sample([1, 2, 31, 62, 63], 1) + [64]:
+                            P.append(("cor", maxl, rnd.choice([[L], dvb.rnd_partition(rnd, L, "mixed")]), 0))
+                    else:
+                        P += [("cb", 64, dvb.rnd_partition(rnd, L, "small"), 0), ("cb", 64, dvb.rnd_partition(rnd, L, "any"), 0)]
+                        for maxl in range(1, 65):
+                            if layout == "one" or maxl % 8 == n % 8 or maxl >= 63:
+                                P.append(("cor", maxl, [L] if maxl % 2 else dvb.rnd_partition(rnd, L, "mixed"), 0))
+                    for plan in P:
+                        runs.append(Run(sid, plan, rec=True))
+                    if n == 71 and kind == "line0" and layout == "one" and not ts:
+                        ctx.sample(dict(case=streams[sid].label, bytes=L, must_deliver=[[l["line"] for l in f["lines"]] for f in must]))
+    # the same with the real multiplexer as the transmitter (undefined lines only)
+    for ts in (False, True):
+        cfg = dict(ts=ts, pid=PID2 if ts else 0, did=0x99, min=184, max=65504)
+        for n in (63, 64, 65, 71) if quick else (60, 63, 64, 65, 66, 71, 80):
+            def make():
+                small = simple_frames(rnd, [c or 1 for c in counts])
+                frames = [(big_lines(rnd, n, "line0"), pts) if counts[i] is None else (fr, pts) for i, (fr, pts) in enumerate(small)]
+                b = flat(dvb.real_stream(drv, cfg, frames))
+                return (frames, b) if (not ts or dvb.sync_clean(b)) else None
+            frames, b = sync_clean_try(make)
+            sent = [dvb.sent_frame(fr, pts) for fr, pts in frames]
+            must = sent[(1 if ts else 0):-1] if n <= CAP else sent[D + 2:-1]
+            sid = add_stream(b, cfg, must, "capacity: a frame of %d lines (undefined line numbers) from the real %s multiplexer" % (n, "TS" if ts else "PES"))
+            for plan in plans_variant(rnd, len(b), quick, p_cor=1.0, maxls=(1, 63, 64)):
+                runs.append(Run(sid, plan, rec=True))
+
+
+def units_at(P):
+    """offsets of the data units of PES packet P (cut at the length fields)"""
+    at, q = [], 46
+    while q + 2 <= len(P) and q + 2 + P[q + 1] <= len(P):
+        at.append(q)
+        q += 2 + P[q + 1]
+    return at
+
+
+def pes_mutations(rnd, P, quick):
+    """directed changes of single fields of the VBI PES packet P -> [(label, bytes, recovery asserted in a PES stream,
+    in a TS stream, transparent)]"""
+    out = []
+    L = len(P) - 6
+
+    def put(label, off, v, rec_pes=True, rec_ts=True, same=False):
+        q = list(P)
+        if isinstance(v, int):
+            v = [v]
+        q[off:off + len(v)] = v
+        out.append((label, q, rec_pes, rec_ts, same))
+    for v in (L + 184, L + 7, L + 1, 0xFFFF, L - 1, L - 46, L - 184, 177, 0):
+        if v >= 0:
+            # a PES receiver has to trust a length that claims more than the packet; in a TS payload_unit_start shows the next packet
+            put("PES_packet_length %d instead of %d" % (v, L), 4, [v >> 8, v & 255], rec_pes=v <= L, rec_ts=True)
+    for v in (0, 35, 37, 255):
+        put("PES_header_data_length %d" % v, 8, v)
+    for v in (0x00, 0x40, 0xC0, 0x81):
+        put("PTS_DTS_flags byte 0x%02x" % v, 7, v)
+    for v in (0x80, 0x94, 0x04, 0x85, 0xFF):
+        put("PES header byte 6 = 0x%02x" % v, 6, v)
+    for v in (0x00, 0x0F, 0x20, 0x98, 0x9C, 0xFF):
+        put("data_identifier 0x%02x" % v, 45, v)
+    for v in (0x1F, 0x9A):
+        put("data_identifier 0x%02x (legal)" % v, 45, v, same=True)
+    at = units_at(P)
+    data = [a for a in at if P[a] != 0xFF]
+    for a in data[:2]:
+        i = at.index(a)
+        for v in (0x2B, 0x2D, 0x00, 0x01, 0xFF):
+            put("data_unit_length 0x%02x in data unit %d" % (v, i), a + 1, v)
+        for v in (0x00, 0x77, 0xC6, 0xB6):
+            put("data_unit_id 0x%02x in data unit %d" % (v, i), a, v)
+        if P[a] in (2, 3):
+            put("framing code 0x27 in data unit %d" % i, a + 3, 0x27)
+            put("line_offset 3 in data unit %d" % i, a + 2, 0xE3)
+            put("line_offset 31 in data unit %d" % i, a + 2, 0xFF)
+            put("reserved bits of the line_offset byte cleared in data unit %d" % i, a + 2, P[a + 2] & 0x3F, same=True)
+    # stuffing: behind the last data unit
+    tail = (data[-1] + 2 + P[data[-1] + 1]) if data else 46
+    room = len(P) - tail
+    if room >= 2:
+        for _ in range(2 if quick else 6):
+            lens = [rnd.choice([0, 0, 1, 2, 7, 43, 44, 45, 100, 254, 255]) for _ in range(6)]
+            try:
+                put("stuffing data units with the lengths %s.." % lens[:3], tail, dvb.stuffing(room, False, lens), same=True)
+            except ValueError:
+                pass
+        q = list(P)
+        st = [a for a in at if a >= tail]
+        if st:
+            put("last stuffing data unit one byte too long", st[-1] + 1, (P[st[-1] + 1] + 1) & 255)
+    if data and room >= 2 and room <= 255 + 2:
+        # the stuffing in front of the data units
+        body = P[46:tail]
+        put("stuffing in front of the data units", 46, dvb.stuffing(room, False, []) + body, same=True)
+    return out
+
+
+JUNK_PATTERNS = [([0x47], "a sync byte"), ([0, 0, 1, 0xBD], "a VBI start code"), ([0, 0, 1, 0xBD, 0, 178], "a start code with PES_packet_length 178"),
+                 ([0, 0, 1, 0xBD, 0xFF, 0xFF], "a start code with PES_packet_length 65535"), ([0, 0, 1], "a start code prefix"),
+                 ([0x47, 0x40 | (PID2 >> 8), PID2 & 255, 0x10, 0, 0, 1, 0xBD, 0, 178], "a transport packet header of the PID with a PES packet start"),
+                 ([0, 0, 1, 0xE0, 0, 4], "a video start code"), ([0x47, 0x1F, 0xFF, 0x10], "a null packet header")]
+
+
+def family_fields(ctx, drv, quick, rnd, add_stream, streams, runs):
+    """single header fields of a PES packet, data unit lengths, stuffing, truncated end, junk with forged sync bytes / start codes"""
+    D = 2
+    for ci in (0, 1):
+        cfgp = CFGS[ci]
+
+        def make():
+            frames, pk = dvb.real_frames_stream(drv, rnd, cfgp, 7, max_ttx=4, line0=0.0)
+            pes = [list(p) for p in pk]
+            return (frames, pes) if dvb.sync_clean(flat(dvb.ts_packetize(pes, PID2, 0)[0])) else None
+        frames, pes = sync_clean_try(make)
+        sent = [dvb.sent_frame(fr, pts) for fr, pts in frames]
+        muts = pes_mutations(rnd, pes[D], quick)
+        for ts in (False, True):
+            cfg = dict(ts=ts, pid=PID2 if ts else 0)
+            cc0 = rnd.randrange(16)
+            enc = (lambda pp: flat(dvb.ts_packetize(pp, PID2, cc0)[0])) if ts else flat
+            first = 1 if (ts and len(pes[0]) == 184) else 0
+            b0 = enc(pes)
+            base = add_stream(b0, cfg, sent[first:-1], "fields: intact %s stream, data_identifier 0x%02x" % ("TS" if ts else "PES", cfgp["did"]))
+            for plan in plans_variant(rnd, len(b0), quick, p_cor=1.0):
+                runs.append(Run(base, plan, rec=True))
+            for label, q, rec_pes, rec_ts, same in muts:
+                b = enc(pes[:D] + [q] + pes[D + 1:])
+                if ts and not dvb.sync_clean(b):
+                    continue
+                if same:
+                    sid = add_stream(b, cfg, sent[first:-1], "transparent: %s in packet %d of a %s stream" % (label, D, "TS" if ts else "PES"), base=base)
+                else:
+                    sid = add_stream(b, cfg, sent[D + 2:-1], "%s in packet %d of a %s stream" % (label, D, "TS" if ts else "PES"))
+                for plan in plans_variant(rnd, len(b), quick):
+                    runs.append(Run(sid, plan, rec=same or (rec_ts if ts else rec_pes)))
+            # the stream ends anywhere in its last two packets
+            n = len(b0)
+            lo = n - len(enc(pes[-2:]))
+            for cut in (sorted(rnd.sample(range(lo, n), 10)) if quick else range(lo, n)):
+                sid = add_stream(b0[:cut], cfg, [], "%s stream truncated at byte %d of %d" % ("TS" if ts else "PES", cut, n))
+                for plan in plans_variant(rnd, cut, quick, p_cor=0.3)[:(2 if quick else 3)]:
+                    runs.append(Run(sid, plan, rec=False))
+            # junk between two packets, a forged pattern at every alignment
+            a = len(enc(pes[:D]))
+            for pat, what in JUNK_PATTERNS:
+                for L in (len(pat) + 3, 50, 190, 400):
+                    offs = range(0, L - len(pat) + 1)
+                    if quick:
+                        offs = rnd.sample(list(offs), 1)
+                    elif L >= 190:
+                        offs = list(offs)[rnd.randrange(3)::3] if L == 190 else rnd.sample(list(offs), 24)
+                    for o in offs:
+                        junk = [rnd.choice(dvb.SAFE) for _ in range(L)]
+                        junk[o:o + len(pat)] = pat
+                        b = b0[:a] + junk + b0[a:]
+                        forged = 0xBD in pat or (ts and 0x47 in pat) or (not ts and pat[:3] == [0, 0, 1])      # a forged header may claim any length
+                        sid = add_stream(b, cfg, sent[D + 1:-1], "%d junk bytes with %s at offset %d between packets %d and %d of a %s stream" % (
+                            L, what, o, D - 1, D, "TS" if ts else "PES"))
+                        for plan in plans_variant(rnd, len(b), quick, p_cor=0.15):
+                            runs.append(Run(sid, plan, rec=not forged))
+
+
 CFGS = [dict(ts=False, pid=0, did=0x10, min=184, max=1472, max_ttx=3, line0=0.0),
         dict(ts=False, pid=0, did=0x99, min=184, max=65504, max_ttx=9, line0=0.3),
         dict(ts=True, pid=0x123, did=0x10, min=184, max=1472, max_ttx=3, line0=0.0),
@@ -116,8 +525,8 @@ def build_cases(ctx, drv, quick):
     rnd = random.Random(ctx.seed * 7919 + 17)
     streams, runs = [], []
 
-    def add_stream(b, cfg, sent, label):
-        streams.append(Stream(b, cfg["ts"], cfg["pid"], sent, label))
+    def add_stream(b, cfg, sent, label, base=None):
+        streams.append(Stream(b, cfg["ts"], cfg["pid"], sent, label, base))
         return len(streams) - 1
 
     for ci, cfg in enumerate(CFGS):
@@ -130,8 +539,9 @@ def build_cases(ctx, drv, quick):
         small = ci in (0, 2)
         for plan in plans_intact(rnd, len(b), quick, (1 if small else 4) if quick else 1, 600 if quick else (260 if small else 120)):
             runs.append(Run(sid, plan, rec=True))
-        ctx.sample(dict(case="intact stream from the real multiplexer", cfg={k: cfg[k] for k in ("ts", "pid", "did", "min", "max")},
-                        bytes=len(b), frames=[[l["line"] for l in fr] for fr, _ in frames], partitions=sum(1 for r in runs if r.sid == sid)))
+        if ci == 0:
+            ctx.sample(dict(case="intact stream from the real multiplexer", cfg={k: cfg[k] for k in ("ts", "pid", "did", "min", "max")},
+                            bytes=len(b), frames=[[l["line"] for l in fr] for fr, _ in frames], partitions=sum(1 for r in runs if r.sid == sid)))
         # 2. damage at every position of packet 2 of a 7 frame stream
         frames, pk = dvb.real_frames_stream(drv, rnd, cfg, 7, max_ttx=min(cfg["max_ttx"], 4), line0=0.0)
         sent = [dvb.sent_frame(fr, pts) for fr, pts in frames]
@@ -196,6 +606,9 @@ def build_cases(ctx, drv, quick):
     for plan in plans_damaged(rnd, len(b), quick)[:3]:
         runs.append(Run(sid, plan, rec=True))
     ctx.sample(dict(case="damaged stream: " + streams[sid].label, bytes=len(b), must_deliver=[[l["line"] for l in f["lines"]] for f in sent[4:-1]]))
+    family_continuity(ctx, drv, quick, rnd, add_stream, streams, runs)
+    family_capacity(ctx, drv, quick, rnd, add_stream, streams, runs)
+    family_fields(ctx, drv, quick, rnd, add_stream, streams, runs)
     return streams, runs
 
 
@@ -206,7 +619,7 @@ def execute(ctx, drv, streams, runs):
     for r, o in zip(runs, res):
         r.res = o
         r.lines = [x for x in o["lines"] if "a" in x]
-        rp = replay_of(streams[r.sid], r)
+        rp = replay_of(streams[r.sid], r, streams)
         bad = False
         if o["stderr"]:
             bad = core.report_sanitizers(ctx, o["stderr"], replay=rp, in_scope=True) > 0
@@ -226,33 +639,53 @@ def execute(ctx, drv, streams, runs):
         raise tlc.ToolFailure("driver restarted too often (%d runs not executed)" % skipped)
 
 
-def replay_of(st, r):
-    return dict(stream=dvb.hexs(st.bytes), ts=st.ts, pid=st.pid, sent=st.sent, label=st.label, plan=list(r.plan), rec=r.rec)
+def replay_of(st, r, streams=None):
+    d = dict(stream=dvb.hexs(st.bytes), ts=st.ts, pid=st.pid, sent=st.sent, label=st.label, plan=list(r.plan), rec=r.rec)
+    if st.base is not None and streams is not None:
+        d["base"] = dvb.hexs(streams[st.base].bytes)
+    return d
 
 
 def write_logs(ctx, streams, runs, nfiles, tag):
-    """runs grouped by stream, spread over nfiles log files of similar cost; -> [(path, where)] where[i] = run of log line i+1"""
+    """runs grouped by stream (a base stream and its transparent variants form one family), spread over nfiles log files of
+    similar cost; -> [(path, where)] where[i] = run of log line i+1"""
     by = {}
     for r in runs:
         if r.lines:
             by.setdefault(r.sid, []).append(r)
-    groups = sorted(by.items(), key=lambda kv: -sum(len(streams[kv[0]].bytes) * len(r.plan[2]) for r in kv[1]))
-    # a big group (the intact streams) is split: every part starts with the stream line and its one-piece run
-    parts = []
-    for sid, rs in groups:
-        cost = len(streams[sid].bytes) * sum(len(r.plan[2]) for r in rs)
-        k = max(1, min(nfiles, cost // 3000000 + 1))
-        for i in range(k):
-            sub = rs[i::k]
-            if i and rs[0] not in sub:
-                sub = [rs[0]] + sub
-            parts.append((sid, sub))
+    fam = {}
+    for sid in by:
+        fam.setdefault(streams[sid].base if streams[sid].base is not None else sid, []).append(sid)
+
+    def cost(sid, rs):
+        return len(streams[sid].bytes) * sum(len(r.plan[2]) for r in rs) + 20000
+    # a unit = [(sid, runs)] written in this order; it begins with the base stream and its first (one piece, callback) run
+    units = []
+    for b, sids in fam.items():
+        sids = sorted(sids, key=lambda x: (x != b, x))
+        if b not in by:
+            continue                       # the base run failed (reported already): its variants cannot be judged
+        if len(sids) == 1:
+            rs = by[b]
+            k = max(1, min(nfiles, cost(b, rs) // 3000000 + 1))
+            for i in range(k):
+                sub = rs[i::k]
+                if i and rs[0] not in sub:
+                    sub = [rs[0]] + sub
+                units.append([(b, sub)])
+        else:
+            # families are cut into pieces of about 40 variants, each led by the base stream's first run
+            head, rest = by[b], [x for x in sids if x != b]
+            units.append([(b, head)] + [(x, by[x]) for x in rest[:40]])
+            for i in range(40, len(rest), 40):
+                units.append([(b, head[:1])] + [(x, by[x]) for x in rest[i:i + 40]])
+    units.sort(key=lambda u: -sum(cost(sid, rs) for sid, rs in u))
     files = [[] for _ in range(nfiles)]
     load = [0] * nfiles
-    for sid, rs in parts:
+    for u in units:
         i = load.index(min(load))
-        files[i].append((sid, rs))
-        load[i] += len(streams[sid].bytes) * sum(len(r.plan[2]) for r in rs) + 20000
+        files[i].append(u)
+        load[i] += sum(cost(sid, rs) for sid, rs in u)
     out = []
     for i, fl in enumerate(files):
         if not fl:
@@ -260,13 +693,14 @@ def write_logs(ctx, streams, runs, nfiles, tag):
         path = os.path.join(ctx.scratch, "dvbdemux-%s-%d.ndjson" % (tag, i))
         where = []
         with open(path, "w") as f:
-            for sid, rs in fl:
-                st = streams[sid]
-                f.write(json.dumps(dict(a="stream", s=st.bytes)) + "\n"); where.append(None)
-                for r in rs:
-                    for ln in r.lines:
-                        f.write(json.dumps(ln) + "\n"); where.append(r)
-                    f.write(json.dumps(dict(a="end", rec=bool(r.rec), cmp=bool(r.cmp), sent=st.sent)) + "\n"); where.append(r)
+            for u in fl:
+                for sid, rs in u:
+                    st = streams[sid]
+                    f.write(json.dumps(dict(a="stream", s=st.bytes, same=st.base is not None)) + "\n"); where.append(None)
+                    for r in rs:
+                        for ln in r.lines:
+                            f.write(json.dumps(ln) + "\n"); where.append(r)
+                        f.write(json.dumps(dict(a="end", rec=bool(r.rec), cmp=bool(r.cmp), sent=st.sent)) + "\n"); where.append(r)
         out.append((path, where))
     return out
 
@@ -289,14 +723,14 @@ def validate(ctx, streams, runs, tag, nfiles=8, timeout=1500):
             if run is None or streams[run.sid].ts:
                 break                      # the TS receiver has one policy only
         return path, where, tried
-    n_ok = 0
+    ok_ids = set()
     for path, where, tried in core.pmap(job, logs, workers=8):
         pol, ok, r = tried[-1] if tried[-1][1] else max(tried, key=lambda t: t[2].reject_at or 0)
         ctx.add_mc(r, "TV %s %s pol=%s" % (tag, os.path.basename(path), pol))
         if pol != "err" and ok:
             ctx.notes.append("receiver policy '%s' explains the recorded runs of %s (policy 'err' does not)" % (pol, os.path.basename(path)))
         seen = set()
-        for m in re.finditer(r'<<"TV-(RECOVERY|PARTITION)", (\d+)(?:, "(\w+)", "(\w+)")?>>', r.out):
+        for m in re.finditer(r'<<"TV-(RECOVERY|PARTITION|SAME)", (\d+)(?:, "(\w+)", "(\w+)")?>>', r.out):
             what, ln, kind, p = m.group(1), int(m.group(2)), m.group(3), m.group(4)
             if (what, ln) in seen or ln > len(where) or where[ln - 1] is None:
                 continue
@@ -309,13 +743,17 @@ def validate(ctx, streams, runs, tag, nfiles=8, timeout=1500):
                 [(f["pts"], [l["line"] for l in f["lines"]]) for f in got])
             if what == "RECOVERY":
                 ctx.violate("tv", "recovery:%s:%s:pol=%s" % ("ts" if st.ts else "pes", kind, p),
-                            "frames behind the damage were not delivered as sent\n" + detail, replay_of(st, run))
+                            "frames behind the damage were not delivered as sent\n" + detail, replay_of(st, run, streams))
+            elif what == "SAME":
+                ctx.violate("tv", "transparent:%s:%s" % ("ts" if st.ts else "pes", run.plan[0]),
+                            "this stream must deliver what its base stream (%s) delivers, it does not\n%s" % (streams[st.base].label, detail),
+                            replay_of(st, run, streams))
             else:
                 ctx.violate("tv", "partition:%s:%s" % ("ts" if st.ts else "pes", run.plan[0]),
                             "this partition of the stream delivered other frames than the first one\n" + detail, replay_of(st, run))
         done = set(id(x) for x in where[:(r.reject_at - 1) if (not ok and r.reject_at) else len(where)] if x is not None)
         if ok:
-            n_ok += len(done)
+            ok_ids |= done
         else:
             at = r.reject_at
             run = where[at - 1] if at and at <= len(where) else None
@@ -328,9 +766,9 @@ def validate(ctx, streams, runs, tag, nfiles=8, timeout=1500):
             _, r2 = tlc.validate_trace("Trace_DvbDemux", dict(POLICY_CFG)[pol], path, timeout=timeout, heap="2g", explain=True)
             ctx.violate("tv", "tv:%s:%s:%s" % ("ts" if st.ts else "pes", run.plan[0], act),
                         "log line %d (%s) is not a step of DvbDemux under any receiver policy\n%s\nplan %s\nrejected line: %s\nlast matched state:%s" % (
-                            at, act, st.label, str(run.plan)[:300], line[:1500], r2.last_state[:4000]), replay_of(st, run))
-            n_ok += len(done) - 1 if id(run) in done else len(done)
-    return n_ok
+                            at, act, st.label, str(run.plan)[:300], line[:1500], r2.last_state[:4000]), replay_of(st, run, streams))
+            ok_ids |= done - {id(run)}
+    return len(ok_ids)
 
 
 def run(ctx):
@@ -340,20 +778,29 @@ def run(ctx):
     ctx.assumptions += ["the callback always returns TRUE", "no raw (sample) buffer is attached to the demultiplexer (as in libzvbi 0.2)",
                         "frames of a valid stream are recognisable: the first line of a frame is not above the last line of its predecessor",
                         "recovery: the payload of the test streams imitates neither a start code (00 00 01) nor a TS sync byte (0x47); damage that enlarges "
-                        "PES_packet_length or removes 184 or more bytes is exercised for safety and partition invariance only"]
+                        "PES_packet_length or removes 184 or more bytes is exercised for safety and partition invariance only",
+                        "a frame holds at most 64 lines (vbi_dvb_demux.sliced[64]): a frame of up to 64 data units is an ordinary frame, one of more is damage"]
     import concurrent.futures as cf
-    mccfg = "MC_DvbDemux_q" if quick else "MC_DvbDemux_t"
+    t = "q" if quick else "t"
+    # partitions of damaged streams; frame capacity (MaxLines = 3); continuity counter over its whole range
+    mcs = [("MC_DvbDemux_" + t, 600 if quick else 3000), ("MC_DvbDemux_cap_" + t, 600 if quick else 3000), ("MC_DvbDemux_cont", 600)]
+
+    def model_checking():
+        return [(cfg, tlc.run("MC_DvbDemux", cfg, timeout=to, workers=4 if quick else 8, heap="6g")) for cfg, to in mcs]
     with cf.ThreadPoolExecutor(1) as ex:
         # model checking (4 workers) runs beside the recording and validation of the real executions (8 processes)
-        fut = ex.submit(tlc.run, "MC_DvbDemux", mccfg, timeout=600 if quick else 3000, workers=4 if quick else 8, heap="6g")
+        fut = ex.submit(model_checking)
         drv = build.build_driver("drv_dvb")
         streams, runs = build_cases(ctx, drv, quick)
         execute(ctx, drv, streams, runs)
-        n_ok = validate(ctx, streams, runs, "q" if quick else "t", nfiles=8 if quick else 24)
-        r = fut.result()
-    ctx.add_mc(r, mccfg)
-    if r.violation:
-        ctx.violate("mc", "mc:%s:%s" % (r.violation["kind"], r.violation["name"]), r.violation["text"][:3000])
+        n_ok = validate(ctx, streams, runs, t, nfiles=8 if quick else 24)
+        res = fut.result()
+    for cfg, r in res:
+        ctx.add_mc(r, cfg)
+        if r.violation:
+            m = re.search(r'<<"([^"]+)", (\d+), ("?\w+"?)>>', r.out)
+            ctx.violate("mc", "mc:%s:%s:%s" % (cfg, r.violation["kind"], r.violation["name"]),
+                        (m.group(0) + "\n" if m else "") + r.violation["text"][:3000])
     ctx.validated(n_ok)
     for r_ in runs:
         nontrivial = len(r_.lines) > 2 and any(x.get("d") for x in r_.lines)
@@ -365,12 +812,19 @@ def run(ctx):
 def replay(ctx, rp):
     drv = build.build_driver("drv_dvb")
     r = rp["replay"]
-    st = Stream(list(bytes.fromhex(r["stream"])), r["ts"], r["pid"], r["sent"], r.get("label", "replay"))
     plan = tuple(r["plan"])
-    runs = [Run(0, one_piece(len(st.bytes)), rec=r.get("rec", False))]
-    if list(plan) != list(runs[0].plan):
-        runs.append(Run(0, plan, rec=r.get("rec", False)))
-    execute(ctx, drv, [st], runs)
+    streams, runs = [], []
+    if r.get("base"):
+        b = list(bytes.fromhex(r["base"]))
+        streams.append(Stream(b, r["ts"], r["pid"], r["sent"], "base stream of the replay"))
+        runs.append(Run(0, one_piece(len(b)), rec=False))
+    st = Stream(list(bytes.fromhex(r["stream"])), r["ts"], r["pid"], r["sent"], r.get("label", "replay"), base=0 if r.get("base") else None)
+    streams.append(st)
+    sid = len(streams) - 1
+    runs.append(Run(sid, one_piece(len(st.bytes)), rec=r.get("rec", False)))
+    if list(plan) != list(runs[-1].plan):
+        runs.append(Run(sid, plan, rec=r.get("rec", False)))
+    execute(ctx, drv, streams, runs)
     for x in runs[-1].lines:
         print(json.dumps(x)[:400])
-    validate(ctx, [st], runs, "replay", nfiles=1)
+    validate(ctx, streams, runs, "replay", nfiles=1)
